@@ -723,6 +723,8 @@ KNOWN_REGIONS = [
     # ---- still present on the tree after the fix: commits above --------------------------------------------------
     dict(id='reciprocal-argument-beyond-2p', status='known', funcs=['asec', 'asech'], kinds='RC', specials=['1'],
          dists=['vnear'], mags={'unit': None}, aniso=BOTH, what=None, witness=None),      # text: next entry (next to -1 the value is ~pi)
+    dict(id='reciprocal-argument-beyond-2p', status='known', funcs=['acot'], kinds='C', specials=['i', '-i'],
+         dists=['vnear'], mags={'unit': None}, aniso=BOTH, what=None, witness=None),      # finite but wrong next to +-i
     dict(id='reciprocal-argument-beyond-2p', status='known', funcs=['acoth'], kinds='RC', specials=['1', '-1'],
          dists=['vnear'], mags={'unit': None}, aniso=BOTH,
          what='asec/asech/acoth(z) = f(1/z) now form 1/z with twice the working precision; an exact argument 1 +- 2^-k with k > 2p+20 '
